@@ -416,6 +416,9 @@ func (d *dialA) preNetwork(ruleURL, ruleShape, ruleKey string) {
 				} else {
 					// caller header copy: key is the range variable
 					k := ev.Args[0]
+					if strip(k).Kind == core.KCall {
+						okC, whyC = false, "caller headers are stored at "+c.P.Pos(ev.Instr.Pos())+" under a key computed from the caller's key ("+k.String()+"): two entries that differ only in spelling overwrite each other and one of them is not sent"
+					}
 					for _, name := range protocolOwned {
 						if !hasLit(p, ev.NLits, false, func(t *core.Term) bool {
 							if t.Kind != core.KEq || t.Args[0] != k {
